@@ -84,7 +84,13 @@ def Sctl.newObserver (sc : Sctl) (n : Nat â†’ Data â†’ Prog) (e : Nat â†’ Nat â†
     .cellWrite sc.serial false (.int (serial + 1)) <|
     .obsNew (n serial) (e serial) (c serial) fun o =>
     .cellRead sc.map false fun m =>
-    .cellWrite sc.map false (amapInsert m serial (.int o)) (k o)
+    .cellWrite sc.map false (amapInsert m serial (.int o)) <|
+    -- stream_controller.rs `new_observer`: the subscription may have ended while this upstream was being
+    -- attached (finalize has walked the table already): detach the new entry and unsubscribe the observer
+    .obsIsSub sc.sub fun b =>
+      if b then k o
+      else .cellRead sc.map false fun m' =>
+        .cellWrite sc.map false (amapRemove m' serial) (.obsUnsub o (k o))
 
 def Sctl.sinkNext (sc : Sctl) (d : Data) : Prog :=
   .obsIsSub sc.sub fun b => if b then .obsNext sc.sub d .done else sc.finalize
